@@ -565,7 +565,7 @@ def run_go(ctx, src, tag):
         f.write(src)
     env = dict(GOENV, GOFLAGS="-mod=mod", GO111MODULE="off", GOCACHE=os.environ.get("GOCACHE", os.path.expanduser("~/.cache/go-build")))
     try:
-        p = subprocess.run(["go", "run", "main.go"], cwd=d, stdout=subprocess.PIPE, stderr=subprocess.PIPE, text=True, timeout=300, env=env)
+        p = vlib.go_run(d, env, 300)
         return ("ok" if p.returncode == 0 else "err:%d" % p.returncode), p.stderr.splitlines()      # println writes to stderr
     except subprocess.TimeoutExpired:
         return "timeout", []
